@@ -209,6 +209,29 @@ def query_triples(rng, X, n, klass):
   raise ValueError(klass)
 
 
+def nullspace_triples(rng, X, L, n):
+  """Triples whose differences lie (almost) in the null space of a
+  rank-deficient L: the learned distance should be ~0, and any route that
+  evaluates it as a difference of large numbers shows its rounding."""
+  X = np.asarray(X, dtype=float)
+  N, d = X.shape
+  if L.size == 0:
+    Z = np.eye(d)
+  else:
+    u, s, vt = np.linalg.svd(L, full_matrices=True)
+    r = int((s > 1e-10 * max(s.max(), 1e-300)).sum()) if s.size else 0
+    Z = vt[r:]
+  if Z.shape[0] == 0:
+    return None
+  T = X[rng.randint(0, N, size=(n, 3))].copy()
+  for i in range(n):
+    c = rng.randn(Z.shape[0]) * 10.0 ** rng.uniform(-3, 3)
+    T[i, 1] = T[i, 0] + c.dot(Z)
+    c2 = rng.randn(Z.shape[0]) * 10.0 ** rng.uniform(-3, 3)
+    T[i, 2] = T[i, 0] + c2.dot(Z) + (rng.randn(d) * 1e-9 if i % 2 else 0)
+  return T
+
+
 QUERY_CLASSES = ['train', 'gauss', 'dup', 'ulp', 'far', 'magnitude',
                  'mixed_magnitude', 'int', 'axis']
 
